@@ -176,6 +176,13 @@ PriorTmpEn(s, a, nm) == s.ag.pc = "down" /\ nm \notin DOMAIN s.dir
 PriorTmpDo(s, a, nm) ==
   [s EXCEPT !.dir = Put(@, nm, TmpE(EmptyFn, FALSE)), !.n.setup = Bump(@, MaxSetup)]
 
+(* a zero-length file under an instance's name, left by an earlier life of   *)
+(* the directory (full disk, an older version's interrupted write); only in  *)
+(* the step functions (recorded traces), not in Next                        *)
+PriorEmptyEn(s, a) == s.ag.pc = "down" /\ a \notin DOMAIN s.dir
+PriorEmptyDo(s, a) ==
+  [s EXCEPT !.dir = Put(@, a, [dot |-> FALSE, kind |-> "file", content |-> EmptyFn, complete |-> FALSE])]
+
 -----------------------------------------------------------------------------
 (* the process                                                              *)
 
@@ -471,6 +478,7 @@ En(s, ev, x) ==
     [] ev = "DelMan" -> DelManEn(s, x[1])
     [] ev = "PriorFile" -> PriorFileEn(s, x[1], x[2], x[3])
     [] ev = "PriorTmp" -> PriorTmpEn(s, x[1], x[2])
+    [] ev = "PriorEmpty" -> PriorEmptyEn(s, x[1])
     [] ev = "Boot" -> BootEn(s)
     [] ev = "Notify" -> NotifyEn(s, x[1])
     [] ev = "SyncBegin" -> SyncBeginEn(s, x[1], x[2])
@@ -508,6 +516,7 @@ Do(s, ev, x) ==
     [] ev = "DelMan" -> DelManDo(s, x[1])
     [] ev = "PriorFile" -> PriorFileDo(s, x[1], x[2], x[3])
     [] ev = "PriorTmp" -> PriorTmpDo(s, x[1], x[2])
+    [] ev = "PriorEmpty" -> PriorEmptyDo(s, x[1])
     [] ev = "Boot" -> BootDo(s)
     [] ev = "Notify" -> NotifyDo(s, x[1])
     [] ev = "SyncBegin" -> SyncBeginDo(s, x[1], x[2])
